@@ -313,3 +313,40 @@ def check_helpers(ctx, tu):
             if cal and cal.get('lib') and cal['name'] not in allowed and not cal.get('lambdaop'):
                 bad.append('%s at %s' % (short(cal['key']), f.nloc(n)))
         ctx.ob('C01.H', f, 'the eventutil helper reaches the list only through forEachIf / remove', not bad, detail=', '.join(bad), key_detail='helper callees')
+        if f.kind == 'lambda' and f.parent_fn() is not None and f.parent_fn().name in ('removeListener', 'hasListener', 'hasAnyListener'):
+            par = f.parent_fn()
+            try:
+                fm = F.formula(f, inline=False)
+            except F.Unsupported:
+                fm = None
+            ats = F.atoms(fm) if fm else []
+            if par.name == 'hasAnyListener':
+                ok = fm is not None and F.equivalent(fm, ('const', False))[0]
+                what = 'the visitor stops at the first callback (any callback means "has a listener")'
+            else:
+                ok = fm is not None and len(ats) == 1 and '==' in ats[0] and F.equivalent(fm, ('not', ('atom', ats[0])))[0]
+                what = 'the visitor continues exactly while the visited callback differs from the one searched for'
+            ctx.ob('C01.H', f, what, ok, detail=F.show(fm) if fm else 'formula not extractable', key_detail='helper visitor result')
+            # `found` is set exactly on the matching edge; removeListener removes the visited handle there
+            from ..effects import writes as _writes
+            ws = [w for w in _writes(f) if w['how'] == 'assign' and 'found' in pstr(w['path'])]
+            okf = len(ws) == 1 and f.nodes[f.strip_all_casts(ws[0]['rhs'])].get('value') is True
+            if okf and par.name != 'hasAnyListener':
+                okf = False
+                for bid, blk in f.blocks.items():
+                    c = blk.get('cond')
+                    if c and len(blk['succ']) == 2:
+                        try:
+                            cf = F.boolexpr(f, c, {}, False)
+                        except F.Unsupported:
+                            continue
+                        if cf[0] == 'atom' and '==' in cf[1] and L.edge_dominates(f, bid, 'true', ws[0]['pos']):
+                            okf = True
+            ctx.ob('C01.H', f, '`found` is set exactly when the searched callback was met', okf, key_detail='helper found flag')
+            if par.name == 'removeListener':
+                rm = [n for n in f.calls() if (f.callee(n) or {}).get('name') in ('remove', 'removeListener')]
+                okr = len(rm) == 1 and ws and f.pos_dominates(ws[0]['pos'], f.pos(rm[0])) or (len(rm) == 1 and ws and f.pos(rm[0])[0] == ws[0]['pos'][0])
+                if okr:
+                    hp = f.params[0]['id']
+                    okr = any(root_var_id(path(f, f.value_source(a))) == hp for a in f.call_args(rm[0]))
+                ctx.ob('C01.H', f, 'removeListener removes the visited handle of the matching callback', bool(okr), key_detail='helper removes handle')
